@@ -334,6 +334,63 @@ def _work(units, seed):
     return col.result(internal=True)
 
 
+# ---------------------------------------------------------------------------
+# raw text: every short string over the syntax alphabet that the parser ACCEPTS is a "syntactically valid
+# YAML Path" too -- also the ones no segment generator would write ((a)x, [(a)], [a='b(c)']).  They are evaluated
+# on three small documents; what is observed is, again, only the exception type.
+# ---------------------------------------------------------------------------
+RAW_ALPHA = "[]()'\"\\/.&*!=^$%<>~:, +-ab1"
+RAW_DOCS = ("a: {b: 1, a: [1, {a: b}]}\nb: [a, b1, null]\n1: ab\n", "- {a: 1, b: [a]}\n- [b, 1]\n- a\n", "ab\n")
+RAW_EXTRA = ("(a)x", "(a)x.y", "[(a)]", "a[(b)]", "[(a)b]", "[a='b(c)']", "[a=[b(c)]]", "a.(&a)", "/(&a)", "(a)'x'", "(a)b(c)",
+             "[a=~/(/]", "[has_child(a)](b)", "(a)[0]", "((a)b)", "[.='(']", "[.=')']", "(a)+(b)x", "&a(b)x", "[&a](b)c")
+
+
+def _raw_strings(lo, hi, nalpha):
+    for i in range(lo, hi):
+        k, n, out = 0, i, []
+        # index -> string (shorter strings first), the same scheme as rtc/c14 part A
+        while n >= nalpha ** k:
+            n -= nalpha ** k
+            k += 1
+        for _ in range(k):
+            n, d = divmod(n, nalpha)
+            out.append(RAW_ALPHA[d])
+        yield "".join(reversed(out))
+
+
+def _work_raw(ranges, seed):
+    from yamlpath import Processor, YAMLPath
+    from yamlpath.exceptions import YAMLPathException
+    col = Collector()
+    log = gen.quiet_logger()
+    docs = [gen.load(t) for t in RAW_DOCS]
+    for (lo, hi) in ranges:
+        texts = RAW_EXTRA if lo < 0 else _raw_strings(lo, hi, len(RAW_ALPHA))
+        for text in texts:
+            try:
+                segs = YAMLPath(text).escaped
+                str(YAMLPath(text))
+            except YAMLPathException:
+                col.out_of_scope("raw-text-not-a-valid-path")
+                continue
+            except Exception:
+                col.out_of_scope("raw-text-parser-crash(C14)")
+                continue
+            if not segs:
+                continue
+            sig = None
+            for di, data in enumerate(docs):
+                proc = Processor(log, data)
+                r = call_real(lambda: len(list(proc.get_nodes(text, mustexist=True))))
+                if r[0] == "crash":
+                    col.witness(_crash_key(r), "get_nodes() let %s escape (from %s: %s) for a path text the parser accepts" % (r[1], r[2], r[3]),
+                                {"doc": RAW_DOCS[di], "path": text, "call": "get_nodes", "raw": True}, observed=[r[1], r[2], r[3]],
+                                expected="returns, or raises a YAMLPathException")
+                sig = (tuple(str(t_) for t_, _ in segs), r[0] if r[0] != "ok" else "ok%d" % min(r[1], 2)) if sig is None else sig
+            col.case(("raw", sig))
+    return col.result(internal=True)
+
+
 def _units(docs, n, per, **kw):
     return [dict(docs=docs, lo=i, hi=i + per, **kw) for i in range(0, n, per)]
 
@@ -405,6 +462,19 @@ def run(tier="quick", seed=0, jobs=None):
     col = Collector()
     for part in pmap_chunks(_work, units, jobs=jobs, chunk=1, extra=(seed,)):
         col.merge(part)
+    # raw text stage
+    L = {"quick": 4, "thorough": 5, "mini": 3}[tier]
+    na = len(RAW_ALPHA)
+    total = sum(na ** k for k in range(L + 1))
+    step = max(2000, total // ((jobs or os.cpu_count() or 4) * 8))
+    ranges = [(-1, 0)] + [(lo, min(total, lo + step)) for lo in range(0, total, step)]
+    if frac < 1:
+        ranges = ranges[:max(2, int(len(ranges) * frac))]
+    for part in pmap_chunks(_work_raw, ranges, jobs=jobs, chunk=1, extra=(seed,)):
+        col.merge(part)
+    bounds["raw_text"] = ("every string of length <= %d over the %d-character syntax alphabet %r (%d strings) plus %d curated texts: "
+                          "those the parser accepts are evaluated with get_nodes(mustexist=True) on %d fixed documents"
+                          % (L, na, RAW_ALPHA, total, len(RAW_EXTRA), len(RAW_DOCS)))
     bounds.update({"seed": seed, "vocabulary": len(VOCAB), "collector_paths": len(COLLS),
                    "documents": {k: len(v) for k, v in DOCSETS.items()},
                    "index_values": "[i] for i in -9,-4..4,9; bare keys 0,1,2,7,-1,-2,-4", "slice_bounds": "ints -9..9 incl. reversed/equal, and non-integer terms",
